@@ -266,23 +266,33 @@ pub(crate) fn decouple_v_models(
 }
 
 pub(crate) fn transform_text(text: &str) -> String {
-    let jsx_text_value = text.replace('\t', " ");
-    let mut jsx_text_lines = jsx_text_value.lines().enumerate().peekable();
+    // standard JSX text rule: lines are split on CRLF/LF/CR, tabs count as spaces,
+    // only spaces adjacent to a line break are removed, whitespace-only lines are dropped
+    // and the remaining lines are joined by a single space
+    let normalized = text.replace("\r\n", "\n").replace('\r', "\n");
+    let lines = normalized.split('\n').collect::<Vec<_>>();
+    let last_line = lines.len() - 1;
+    let last_non_empty_line = lines
+        .iter()
+        .rposition(|line| line.contains(|c| c != ' ' && c != '\t'))
+        .unwrap_or(0);
 
-    let mut lines = vec![];
-    while let Some((index, line)) = jsx_text_lines.next() {
-        let line = if index == 0 {
-            // first line
-            line.trim_end()
-        } else if jsx_text_lines.peek().is_none() {
-            // last line
-            line.trim_start()
-        } else {
-            line.trim()
-        };
+    let mut result = String::with_capacity(text.len());
+    for (index, line) in lines.iter().enumerate() {
+        let line = line.replace('\t', " ");
+        let mut line = line.as_str();
+        if index != 0 {
+            line = line.trim_start_matches(' ');
+        }
+        if index != last_line {
+            line = line.trim_end_matches(' ');
+        }
         if !line.is_empty() {
-            lines.push(line);
+            result.push_str(line);
+            if index != last_non_empty_line {
+                result.push(' ');
+            }
         }
     }
-    lines.join(" ")
+    result
 }
